@@ -154,3 +154,86 @@ def file_metadata_merge(g1: int, g2: int, u1: int, u2: int, chiA: bool, chiB: bo
     assert (A["chi"] is not None) == chiA and (B["chi"] is not None) == chiB
     assert A["fileWideChiFlag"] == (1 if chiA else 0) and B["fileWideChiFlag"] == (1 if chiB else 0)
     assert A["libraryLabel"] == ("LIB-A" if labelA else "") and B["libraryLabel"] == "LIB-B"
+
+
+# ----------------------------------------------------------------------------- XSNuclide.merge (+ XSCollection.merge, _mergeAttributes)
+def nuclide(lib, label, mask, w, v):
+    """a real XSNuclide carrying the data kinds of `mask` (1 neutron/ISOTXS, 2 gamma/GAMISO, 4 production/PMATRX):
+    for each kind its metadata (one symbolic entry w[k]) and its data (2-group arrays built from v[k])"""
+    n = XSNuclide(lib, label)
+    hasN, hasG, hasP = bits(mask)
+    if hasN:
+        n.isotxsMetadata["amass"] = w[0]
+        n.micros.fission = np.array([v[0], v[0] + 1.0])
+        n.micros.nGamma = np.array([2.0 * v[0], v[0]])
+    if hasG:
+        n.gamisoMetadata["amass"] = w[1]
+        n.gammaXS.total = np.array([v[1], v[1] + 1.0])
+    if hasP:
+        n.pmatrxMetadata["numLegendre"] = w[2]
+        n.neutronHeating = np.array([v[2], v[2] + 1.0])
+        n.gammaHeating = np.array([v[2] + 2.0, v[2]])
+    return n
+
+
+def first(a):
+    return None if a is None else a[0]
+
+
+def observe(n):
+    """observable content of a nuclide: metadata entries and the leading value of every data array"""
+    return [n.isotxsMetadata["amass"], n.gamisoMetadata["amass"], n.pmatrxMetadata["numLegendre"],
+            len(n.isotxsMetadata), len(n.gamisoMetadata), len(n.pmatrxMetadata),
+            first(n.micros.fission), first(n.micros.nGamma), first(n.gammaXS.total), first(n.gammaXS.fission),
+            first(n.neutronHeating), first(n.gammaHeating), first(n.neutronDamage)]
+
+
+def same_content(o1, o2):
+    return all([(x is None and y is None) or (x is not None and y is not None and eq(x, y)) for x, y in zip(o1, o2)])
+
+
+def try_nuclide_merge(a, b):
+    try:
+        a.merge(b)
+        return False
+    except AttributeError:
+        return True
+
+
+G_NUC = {"ma": (0, 7), "mb": (0, 7), "wa0": (0, 1), "wb0": (0, 1), "wa1": (0, 1), "wb1": (0, 1), "wa2": (0, 1), "wb2": (0, 1)}
+
+
+@lemma(gen=G_NUC)
+def nuclide_merge_unites_disjoint_kinds_and_refuses_overlap(ma: int, mb: int, wa0: int, wa1: int, wa2: int, wb0: int, wb1: int, wb2: int,
+                                                            x0: float, x1: float, x2: float, y0: float, y1: float, y2: float):
+    """XSNuclide.merge for every pair of data-kind sets (8 x 8 shapes), symbolic metadata entries and data:
+    disjoint kinds -> the target holds the union, each kind (metadata and arrays) identical to its source, and the
+    content is the same in either merge order; a kind present in both sources (same nuclide label) -> AttributeError,
+    never a silent combination - whether or not the two copies happen to agree."""
+    ma = choose(ma, 0, 7)
+    mb = choose(mb, 0, 7)
+    lib = IsotxsLibrary()
+    wa, wb, va, vb = [wa0, wa1, wa2], [wb0, wb1, wb2], [x0, x1, x2], [y0, y1, y2]
+    A = nuclide(lib, "U235AA", ma, wa, va)
+    B = nuclide(lib, "U235AA", mb, wb, vb)
+    srcA, srcB = observe(A), observe(B)
+    pa, pb = bits(ma), bits(mb)
+    overlap = any([pa[i] and pb[i] for i in range(3)])
+    refused = try_nuclide_merge(A, B)
+    assert refused == overlap, "refused iff some kind of data is present in both"
+    if not refused:
+        got = observe(A)
+        for j in range(len(got)):
+            if j in (3, 4, 5):
+                assert got[j] == srcA[j] + srcB[j], "metadata entries: exactly those of the sources"
+            elif srcA[j] is not None:
+                assert eq(got[j], srcA[j]), "identical to its source"
+            elif srcB[j] is not None:
+                assert eq(got[j], srcB[j]), "identical to its source"
+            else:
+                assert got[j] is None, "nothing invented"
+        # the other order
+        A2 = nuclide(lib, "U235AA", ma, wa, va)
+        B2 = nuclide(lib, "U235AA", mb, wb, vb)
+        assert not try_nuclide_merge(B2, A2)
+        assert same_content(observe(B2), got), "same content in either order"
